@@ -315,7 +315,8 @@ Observe(o, e) ==
     [] e.ev = "stall"  -> [o EXCEPT !.stalled = TRUE, !.srvGone = TRUE, !.pend = NoCmd]
     [] e.ev = "log"    -> [o EXCEPT !.viol = @
                               \cup Flag("C16_NoSecretInLog", o.cfg.logauth \/ ~e.leak)
-                              \cup Flag("C16_WindowCloses", e.post => e.verbatim)]
+                              \* ("after": the record was written after smtp.Client.Auth had returned, successfully or not)
+                              \cup Flag("C16_WindowCloses", (e.post \/ e.after) => e.verbatim)]
     \* (recorded events name the transport; the design model always closes the latest one)
     [] e.ev = "cclose" -> LET id == IF "cid" \in DOMAIN e THEN e.cid ELSE o.ncon IN
                           [o EXCEPT !.conn = IF id = o.ncon THEN "closed" ELSE @, !.openSet = @ \ {id}]
